@@ -27,6 +27,19 @@ def seeds():
         out.append("| %s | %s | %s | %s | %s | %s |" % (name, m.get("what", "")[:110], m.get("needs", "")[:90], m.get("tests", ""), m.get("caught_by", ""), m.get("how", "")[:80]))
     return "\n".join(out)
 
+def numbers():
+    out = ["| id | level | scenarios judged | TLC distinct states | traces / behaviours bound to the code | ok | known-finding | unspecified | drift | wall (s) |",
+           "|---|---|---|---|---|---|---|---|---|---|"]
+    for f in sorted(glob.glob(os.path.join(ROOT, "evidence", "C*.json"))):
+        e = json.load(open(f))
+        c = e.get("coverage", {})
+        o = c.get("outcomes", {})
+        out.append("| %s | %s | %s | %s | %s | %s | %s | %s | %s | %s |" % (
+            e.get("property_id"), e.get("level", ""), c.get("evaluations", ""), c.get("states", ""), c.get("traces_validated_against_impl", ""),
+            o.get("ok", ""), o.get("known-finding", ""), o.get("unspecified", ""), o.get("drift", ""), e.get("wall_s", "")))
+    return "\n".join(out)
+
+
 def benign():
     rows = []
     for d in sorted(glob.glob(os.path.join(ROOT, "seeded", "benign-*")), key=lambda x: int(x.rsplit("-", 1)[1])):
